@@ -32,6 +32,8 @@ func init() {
 			Run: func(P *Program, R *Report) { keyRangeProofRule(P, R) }},
 		Rule{ID: "C17.f", Explain: "nil/length safety of the key-proof verifier (same validated-before-use typestate as C08, entry point VerifyProof) and: every slice field of every proof type is length-checked and every one of its elements structure-checked by the corresponding structure check (a loop over that very field).",
 			Run: func(P *Program, R *Report) { keyproofSafetyRule(P, R) }},
+		Rule{ID: "C17.h", Explain: "good keys are accepted: VerifyProof rejects for the specified reasons only - a missing component, a group prime that is too SHORT or not a safe prime, a failed structure check, a group that cannot be built, a challenge mismatch - and otherwise returns the verdict of the quasi-safe-prime-product proof; any other rejecting branch (e.g. an upper bound on the group prime, which the prover legitimately exceeds when it uses a precomputed prime) is reported.",
+			Run: func(P *Program, R *Report) { validKeyRejectionsRule(P, R) }},
 		Rule{ID: "C17.g", Explain: "CanProve tests the residue conditions and safe primality (C16.f).",
 			Run: func(P *Program, R *Report) { canProveRule(P, R, "C17.g") }},
 	)
@@ -855,4 +857,46 @@ func useAfterCheckRule(P *Program, R *Report, rule string) {
 		R.decide(rule, kVKVerify+":use-after-check:"+f, fmt.Sprintf("every use of proof.%s (%d call sites) is preceded on all paths by its nil / structure check", f, n), ok, strings.Join(details, "\n"), P.Pos(fn.Pos()))
 	}
 	R.decide(rule, kVKVerify+":uses", "uses of proof fields in VerifyProof were found (>= 20)", uses >= 20, fmt.Sprintf("%d", uses), "")
+}
+
+func validKeyRejectionsRule(P *Program, R *Report) {
+	rule := "C17.h"
+	fn := mustFunc(P, R, rule, kVKVerify)
+	if fn == nil {
+		return
+	}
+	be := P.bigEval(fn)
+	classify := func(a Atom) (string, bool) {
+		a = normAtom(a)
+		if bo, ok := a.V.(*ssa.BinOp); ok && (isNilConst(bo.Y) || isNilConst(bo.X)) {
+			x := bo.X
+			if isNilConst(x) {
+				x = bo.Y
+			}
+			return "nil test of " + desc(x), strings.HasPrefix(desc(x), vkp+".")
+		}
+		if g, ok := parseGuard(a, be); ok {
+			switch {
+			case g.Kind == "bitlen" && g.Subject == vkp+".GroupPrime" && (g.Rel == "<" || g.Rel == "<="):
+				return "group prime too short", true
+			case g.Kind == "big" && g.Rel == "!=" && (g.Subject == vkp+".Challenge" || strings.HasPrefix(g.Subject, "call:common.HashCommit")):
+				return "challenge mismatch", true
+			}
+			return fmt.Sprintf("size/order test of %s (%s %s)", g.Subject, g.Kind, g.Rel), false
+		}
+		if c, idx := callAndResult(a.V); c != nil {
+			switch {
+			case bigMethod(c) == "ProbablyPrime" && a.Want == False:
+				return "primality test", true
+			case isStructureCallOn(Atom{V: a.V, Want: True}) || (strings.Contains(strings.ToLower(calleeName(c)), "structure") && a.Want == False):
+				return "structure check " + calleeName(c), true
+			case calleeName(c) == "zkproof.BuildGroup" && idx == 1 && a.Want == False:
+				return "group cannot be built", true
+			}
+			return "call " + calleeName(c), false
+		}
+		return "condition " + desc(a.V), false
+	}
+	n := enumerateRejections(P, R, rule, kVKVerify, fn, classify)
+	R.decide(rule, kVKVerify+":rejections", "the rejecting branches were enumerated (>= 10)", n >= 10, fmt.Sprintf("%d", n), P.Pos(fn.Pos()))
 }
